@@ -22,6 +22,9 @@ import sys
 import time
 
 HERE = os.path.dirname(os.path.dirname(os.path.abspath(__file__)))
+# where evidence/ and replays/ are written: /verif itself, except for runs against a deliberately
+# broken scratch tree (tools/check_seeds.sh), which must not overwrite the evidence of the real tree
+OUT = os.environ.get("VERIF_OUT") or HERE
 NPROC = int(os.environ.get("VERIF_NPROC", "16"))
 MAX_VIOL_PER_SHARD = 60
 
@@ -218,7 +221,7 @@ def write_replay(pid, tier, seed, v):
     if "shrunk_from" in v:
         body["shrunk_from"] = v["shrunk_from"]
     h = hashlib.sha1(sig_of(v).encode("utf-8", "backslashreplace")).hexdigest()[:12]
-    d = os.path.join(HERE, "replays")
+    d = os.path.join(OUT, "replays")
     os.makedirs(d, exist_ok=True)
     path = os.path.join(d, "%s-%s.json" % (pid, h))
     with open(path, "w", encoding="utf-8") as f:
@@ -325,8 +328,8 @@ def run_check(pid, tier):
         "notes": ctx.notes + out.get("notes", []),
         "repo_head": _git_head(),
     }
-    os.makedirs(os.path.join(HERE, "evidence"), exist_ok=True)
-    evp = os.path.join(HERE, "evidence", pid + ".json")
+    os.makedirs(os.path.join(OUT, "evidence"), exist_ok=True)
+    evp = os.path.join(OUT, "evidence", pid + ".json")
     with open(evp, "w", encoding="utf-8") as f:
         json.dump(ev, f, indent=1, ensure_ascii=True, default=str)
     _validate(evp)
